@@ -103,10 +103,14 @@ def check_block(block):
         if np.isfinite(lb):
             out = np.array([[lb - 1e-9 * width], [ub + 1e-9 * width], [lb - abs(lb) - 1.0], [ub + abs(ub) + 1.0]])
             if islog:
-                out = np.maximum(out, 1e-300)
+                # far outside: stay in the domain of the logarithm; *just* outside (first two rows) may be zero or negative
+                out[2:] = np.maximum(out[2:], 1e-300)
             Uo = vt(out)
             if np.any(Uo < vt.lb) or np.any(Uo > vt.ub) or np.any(np.isnan(Uo)):
                 bad.setdefault("clamp-forward", q)
+            # order is preserved across the edge too: a point below the box maps to the lower edge, one above to the upper edge
+            if not (Uo[0, 0] == vt.lb[0, 0] and Uo[2, 0] == vt.lb[0, 0] and Uo[1, 0] == vt.ub[0, 0] and Uo[3, 0] == vt.ub[0, 0]):
+                bad.setdefault("order-reversed-outside/%s" % ("log" if islog else "affine"), (q, Uo.ravel().tolist()))
             wu = float(vt.ub[0, 0] - vt.lb[0, 0])
             Xo = vt.inverse_transf(np.array([[vt.lb[0, 0] - 1e-9 * wu], [vt.ub[0, 0] + 1e-9 * wu], [vt.lb[0, 0] - 1.0], [vt.ub[0, 0] + 1.0]]))
             if np.any(Xo < lb) or np.any(Xo > ub) or np.any(np.isnan(Xo)):
@@ -115,6 +119,16 @@ def check_block(block):
         if np.isfinite(lb):
             if not (vt(arr(lb))[0, 0] == vt.lb[0, 0] and vt(arr(ub))[0, 0] == vt.ub[0, 0]):
                 bad.setdefault("bounds-image", q)
+        # integer-typed arrays are another spelling of the same bounds
+        if all(np.isfinite(v) and float(v).is_integer() and abs(v) < 2**53 for v in (lb, plb, pub, ub)):
+            iarr = lambda v: np.array([[int(v)]])
+            try:
+                vi = VariableTransformer(1, iarr(lb), iarr(ub), iarr(plb), iarr(pub), None if scaling else np.zeros((1, 1)))
+                same = all(np.array_equal(getattr(vi, a), getattr(vt, a)) for a in ("lb", "ub", "plb", "pub", "apply_log_t")) and np.array_equal(vi(X), U)
+            except Exception as e:  # noqa
+                same = False
+            if not same:
+                bad.setdefault("integer-typed-bounds", q)
     return n, npts, bad
 
 
